@@ -2,7 +2,7 @@
 (* Bounded instance of Processor for exhaustive checking (C01 C02 C03a C13 C14). *)
 EXTENDS Processor
 
-CONSTANTS MaxUpd, MaxBad, MaxLocal, MaxInbound, MaxTime, UseFourth, SetIdxs, TimeSteps, Faults
+CONSTANTS MaxUpd, MaxBad, MaxLocal, MaxInbound, MaxTime, UseFourth, SetIdxs, TimeSteps, Faults, MaxRestart
 
 VARIABLE cnt   \* [upd, bad, loc, inb] budgets used so far (bounding only)
 
@@ -58,7 +58,7 @@ VaaUniverse ==
              S \in {SA, SB, S1}}
     \cup {[ok |-> FALSE, d |-> "d1", id |-> "i1", setIdx |-> 0, sigs |-> <<>>]}
 
-MCInit == Init /\ cnt = [upd |-> 0, bad |-> 0, loc |-> 0, inb |-> 0]
+MCInit == Init /\ cnt = [upd |-> 0, bad |-> 0, loc |-> 0, inb |-> 0, rst |-> 0]
 
 Bump(f) == cnt' = [cnt EXCEPT ![f] = @ + 1]
 
@@ -73,6 +73,7 @@ MCNext ==
     \/ \E k \in TimeSteps : (MaxTime = 0 \/ now + k <= MaxTime) /\ DOMAIN agg # {} /\ Advance(k) /\ UNCHANGED cnt
     \/ \E L \in SUBSET LateSet : CleanupTick(L) /\ <<agg, out>>' # <<agg, {}>> /\ UNCHANGED cnt
     \/ Faults /\ DOMAIN agg # {} /\ StoreDown /\ UNCHANGED cnt
+    \/ cnt.rst < MaxRestart /\ (DOMAIN agg # {} \/ DOMAIN db # {}) /\ Restart /\ Bump("rst")
 
 MCSpec == MCInit /\ [][MCNext]_mcvars
 
